@@ -62,22 +62,24 @@ fn apply<const N: usize>(b: &mut AsyncFixedBuf<N>, s: &St, op: &Op, w: &mut impl
             let mut storage = vec![0x2eu8; p + c];
             let mut rb = ReadBuf::new(&mut storage);
             rb.put_slice(&vec![0x50u8; *p]);
-            let r = Pin::new(&mut *b).poll_read(&mut cx, &mut rb);
+            let r = std::panic::catch_unwind(std::panic::AssertUnwindSafe(|| Pin::new(&mut *b).poll_read(&mut cx, &mut rb)));
             let res = match r {
-                Poll::Ready(Ok(())) => format!("ok {}", hex(rb.filled())),
-                Poll::Ready(Err(e)) => format!("err{} {}", crate::asrw::kind_num(e.kind()), hex(rb.filled())),
-                Poll::Pending => format!("pending {}", hex(rb.filled())),
+                Ok(Poll::Ready(Ok(()))) => format!("ok {}", hex(rb.filled())),
+                Ok(Poll::Ready(Err(e))) => format!("err{} {}", crate::asrw::kind_num(e.kind()), hex(rb.filled())),
+                Ok(Poll::Pending) => format!("pending {}", hex(rb.filled())),
+                Err(_) => format!("panic {}", hex(rb.filled())),
             };
             let s2 = observe(b);
             writeln!(w, "AP {} | pr {} {} | {} | {}", pre, p, c, res, full(&s2)).unwrap();
             s2
         }
         Op::PollWrite(d) => {
-            let r = Pin::new(&mut *b).poll_write(&mut cx, d);
+            let r = std::panic::catch_unwind(std::panic::AssertUnwindSafe(|| Pin::new(&mut *b).poll_write(&mut cx, d)));
             let res = match r {
-                Poll::Ready(Ok(n)) => format!("ok {}", n),
-                Poll::Ready(Err(e)) => format!("err{}", crate::asrw::kind_num(e.kind())),
-                Poll::Pending => "pending".into(),
+                Ok(Poll::Ready(Ok(n))) => format!("ok {}", n),
+                Ok(Poll::Ready(Err(e))) => format!("err{}", crate::asrw::kind_num(e.kind())),
+                Ok(Poll::Pending) => "pending".into(),
+                Err(_) => "panic".into(),
             };
             let s2 = observe(b);
             writeln!(w, "AP {} | pw {} | {} | {}", pre, hex(d), res, full(&s2)).unwrap();
@@ -245,7 +247,16 @@ pub fn run(thorough: bool, seed: u64, w: &mut impl std::io::Write) {
     let mut rng = Rng(seed ^ 0xa7);
     let cases = if thorough { 20000 } else { 2000 };
     for _ in 0..cases {
-        combinators::<8>(&mut rng, w);
+        let seed2 = rng.next();
+        let mut line: Vec<u8> = vec![];
+        let r = std::panic::catch_unwind(std::panic::AssertUnwindSafe(|| {
+            let mut r2 = Rng(seed2);
+            combinators::<8>(&mut r2, &mut line)
+        }));
+        match r {
+            Ok(()) => w.write_all(&line).unwrap(),
+            Err(_) => writeln!(w, "AC 8 - 0 panicked-seed-{} | panic | - | -", seed2).unwrap(),
+        }
     }
     eprintln!("STAT at states={} transitions={} combinator_runs={}", states, tot, cases);
 }
